@@ -57,7 +57,7 @@ list_t              *snoopy_tsrm_threadRepo = &snoopy_tsrm_threadRepo_data;
  * enters the library before snoopy_tsrm_atfork_child() has run (from an atfork child handler that was registered
  * before ours, which therefore runs first) still sees it set - see snoopy_tsrm_atfork_childIfPending().
  */
-static __thread int  snoopy_tsrm_forkInProgress = SNOOPY_FALSE;
+static __thread int  snoopy_tsrm_forkInProgress = 0;   // Depth: a prepare handler of the application may fork() itself
 
 
 
@@ -211,7 +211,7 @@ void snoopy_tsrm_atfork_prepare ()
     // Order matters: a thread that holds the libc guard never asks for the threadRepo mutex
     pthread_mutex_lock(&snoopy_tsrm_libcGuard_mutex);
     pthread_mutex_lock(&snoopy_tsrm_threadRepo_mutex);
-    snoopy_tsrm_forkInProgress = SNOOPY_TRUE;
+    snoopy_tsrm_forkInProgress++;
 }
 
 
@@ -237,7 +237,7 @@ void snoopy_tsrm_atfork_prepare ()
  */
 void snoopy_tsrm_atfork_childIfPending ()
 {
-    if (SNOOPY_TRUE != snoopy_tsrm_forkInProgress) {
+    if (0 == snoopy_tsrm_forkInProgress) {
         return;
     }
     if (0 == pthread_mutex_trylock(&snoopy_tsrm_threadRepo_mutex)) {
@@ -264,7 +264,9 @@ void snoopy_tsrm_atfork_childIfPending ()
  */
 void snoopy_tsrm_atfork_parent ()
 {
-    snoopy_tsrm_forkInProgress = SNOOPY_FALSE;
+    if (snoopy_tsrm_forkInProgress > 0) {
+        snoopy_tsrm_forkInProgress--;
+    }
     pthread_mutex_unlock(&snoopy_tsrm_threadRepo_mutex);
     pthread_mutex_unlock(&snoopy_tsrm_libcGuard_mutex);
 }
@@ -295,7 +297,7 @@ void snoopy_tsrm_atfork_child ()
     snoopy_tsrm_threadData_t   *tData;
 
     // Re-create the mutexes
-    snoopy_tsrm_forkInProgress = SNOOPY_FALSE;
+    snoopy_tsrm_forkInProgress = 0;
     pthread_mutex_init(&snoopy_tsrm_threadRepo_mutex, &snoopy_tsrm_threadRepo_mutexAttr);
     pthread_mutex_init(&snoopy_tsrm_libcGuard_mutex,  &snoopy_tsrm_threadRepo_mutexAttr);
 
